@@ -452,11 +452,12 @@ class DriverLubaRs232(DriverSerialBase):
                 _LOG.critical(
                     f"LUBA RX DALI queue not empty! {qlen} items in queue!"
                 )
-                try:
-                    item = self._queue_rx_raw_dali.get_nowait()
-                    _LOG.critical(f"LUBA RX DALI queue discarding: {item}")
-                except asyncio.QueueEmpty:
-                    pass
+                while True:
+                    try:
+                        item = self._queue_rx_raw_dali.get_nowait()
+                        _LOG.critical(f"LUBA RX DALI queue discarding: {item}")
+                    except asyncio.QueueEmpty:
+                        break
 
         @staticmethod
         def _insert_checksum(in_ints: list[int]) -> None:
@@ -1292,11 +1293,12 @@ class DriverSCIRS232(DriverSerialBase):
                 _LOG.critical(
                     f"SCI RS232 RX DALI queue not empty! {qlen} items in queue!"
                 )
-                try:
-                    item = self._queue_rx_raw_dali.get_nowait()
-                    _LOG.critical(f"SCI RS232 RX DALI queue discarding: {item}")
-                except asyncio.QueueEmpty:
-                    pass
+                while True:
+                    try:
+                        item = self._queue_rx_raw_dali.get_nowait()
+                        _LOG.critical(f"SCI RS232 RX DALI queue discarding: {item}")
+                    except asyncio.QueueEmpty:
+                        break
 
             # remove information frames (includes errors and sent confirmations)
             qlen = self._queue_rx_info.qsize()
@@ -1304,11 +1306,12 @@ class DriverSCIRS232(DriverSerialBase):
                 _LOG.critical(
                     f"SCI RS232 RX info DALI queue not empty! {qlen} items in queue!"
                 )
-                try:
-                    item = self._queue_rx_raw_dali.get_nowait()
-                    _LOG.critical(f"SCI RS232 RX info DALI queue discarding: {item}")
-                except asyncio.QueueEmpty:
-                    pass
+                while True:
+                    try:
+                        item = self._queue_rx_info.get_nowait()
+                        _LOG.critical(f"SCI RS232 RX info DALI queue discarding: {item}")
+                    except asyncio.QueueEmpty:
+                        break
 
         @staticmethod
         def _insert_checksum(in_ints: list[int]) -> None:
